@@ -162,6 +162,7 @@ func checkC01(c *Ctx, r *Report) {
 	// the emitters get the pipeline's metadata itself (no renamed/filtered copy)
 	checkManagerPassThrough(c, r, "C01.d")
 	checkHiddenSemantics(c, r, "C01.a")
+	checkVisitorCursors(c, r, "C01.b")
 
 	// IsHiddenAsset semantic skeleton: true iff Type == HideMethodAlways
 	if fi := need(c, r, "C01.a", "generator/swagen/swagtool.IsHiddenAsset"); fi != nil {
@@ -253,6 +254,7 @@ func checkC01(c *Ctx, r *Report) {
 		Why: "a method belongs to a controller iff its receiver type (T or *T) is named exactly like the struct"})
 
 	ruleEarlyExitInventory(c, r, "C01.a", 10, "core/visitors", "core/metadata")
+	ruleErrDrops(c, r, "C01.a", "core/visitors", "core/metadata", "graphs")
 	ruleIRWriters(c, r, "C01.d", "definitions.RouteMetadata", "definitions.ControllerMetadata", "definitions.MethodHideOptions", "definitions.DeprecationOptions", "definitions.RestMetadata")
 	// every element filter in these packages is a reviewed one
 	ruleSkipInventory(c, r, "C01.a", loadSkipTable(c.VerifDir), 8, "generator/swagen", "core/visitors", "core/metadata")
@@ -687,4 +689,105 @@ func checkHiddenSemantics(c *Ctx, r *Report, clause string) {
 		viol = "GetMethodHideOpts never answers HideMethodAlways"
 	}
 	r.add(clause, "guardedby", fi.Key+":@Hidden=>always", "a method annotated @Hidden (any form) is hidden; `never` is answered only for a missing holder/attribute", []string{fi.Key}, sites, viol)
+}
+
+// checkVisitorCursors: a walker remembers "the file / declaration I am in" by storing the node
+// a type-switch arm has just matched into a field of its receiver; whatever is visited next is
+// attributed to that cursor. The store must happen for every node of that kind: a conditional
+// update leaves the cursor on an earlier node, and the next entity inherits that one's file,
+// documentation, route prefix or tag.
+func checkVisitorCursors(c *Ctx, r *Report, clause string) {
+	w := c.W
+	n := 0
+	var sites []string
+	viol := ""
+	for _, fi := range w.funcsOfPkg("core/visitors") {
+		if fi.SSA == nil || fi.SSA.Signature.Recv() == nil || len(fi.SSA.Params) == 0 || w.isNewName(fi.Key) {
+			continue
+		}
+		recv := fi.SSA.Params[0]
+		// the type-switch arms of fi: ok-successor of `if extract(typeassert,ok)#1`
+		armOf := map[*ssa.TypeAssert]*ssa.BasicBlock{}
+		for _, b := range fi.SSA.Blocks {
+			ifi, ok := b.Instrs[len(b.Instrs)-1].(*ssa.If)
+			if !ok {
+				continue
+			}
+			if ex, ok := ifi.Cond.(*ssa.Extract); ok && ex.Index == 1 {
+				if ta, ok := ex.Tuple.(*ssa.TypeAssert); ok && ta.CommaOk {
+					if p, isParam := ta.X.(*ssa.Parameter); isParam && p != recv {
+						armOf[ta] = b.Succs[0]
+					}
+				}
+			}
+		}
+		if len(armOf) == 0 {
+			continue
+		}
+		// every arm that can store its node into a receiver field does so on all its paths
+		for ta, arm := range armOf {
+			var stores []*ssa.Store
+			allInstrsLocal(fi.SSA, false, func(_ *ssa.Function, _ *ssa.BasicBlock, _ int, ins ssa.Instruction) {
+				st, ok := ins.(*ssa.Store)
+				if !ok {
+					return
+				}
+				fa, ok := st.Addr.(*ssa.FieldAddr)
+				if !ok || fa.X != ssa.Value(recv) {
+					return
+				}
+				if ex, ok := st.Val.(*ssa.Extract); ok && ex.Index == 0 && ex.Tuple == ssa.Value(ta) {
+					stores = append(stores, st)
+				}
+			})
+			for _, st := range stores {
+				n++
+				sites = append(sites, w.pos(st.Pos()))
+				// can the arm be left (reach a return, or the code after the switch) without passing the store?
+				seen, _ := reachAvoiding2(arm, map[*ssa.BasicBlock]bool{st.Block(): true})
+				leaves := false
+				for b := range seen {
+					if !arm.Dominates(b) {
+						leaves = true
+					} else if _, isRet := b.Instrs[len(b.Instrs)-1].(*ssa.Return); isRet {
+						leaves = true
+					}
+				}
+				if st.Block() != arm && leaves {
+					fld := ""
+					if fv := structFieldVar(st.Addr.(*ssa.FieldAddr).X.Type(), st.Addr.(*ssa.FieldAddr).Field); fv != nil {
+						fld = fv.Name()
+					}
+					viol = fmt.Sprintf("%s: %s updates its cursor %s only for some of the %s nodes it visits: after a node that is skipped the cursor still points at an earlier one, and whatever is visited next is attributed to that one (its file, its doc comment, its route prefix and tag)", w.pos(st.Pos()), fi.Key, fld, short(ta.AssertedType.String()))
+				}
+			}
+		}
+	}
+	if n < 2 {
+		viol = fmt.Sprintf("expected the cursor stores of ControllerVisitor.Visit (current file, current declaration), found %d", n)
+	}
+	if len(sites) == 0 {
+		sites = []string{"core/visitors:0"}
+	}
+	o := r.add(clause, "mustcall", "visitor-cursors-updated-for-every-node", "a visitor's cursor fields (the file / declaration being walked) are updated for every node of their kind", []string{"core/visitors"}, sites, viol)
+	o.NonTrivial = true
+}
+
+// reachAvoiding2: blocks reachable from start without entering an avoided block.
+func reachAvoiding2(start *ssa.BasicBlock, avoid map[*ssa.BasicBlock]bool) (map[*ssa.BasicBlock]bool, bool) {
+	seen := map[*ssa.BasicBlock]bool{}
+	if avoid[start] {
+		return seen, false
+	}
+	work := []*ssa.BasicBlock{start}
+	for len(work) > 0 {
+		b := work[len(work)-1]
+		work = work[:len(work)-1]
+		if seen[b] || avoid[b] {
+			continue
+		}
+		seen[b] = true
+		work = append(work, b.Succs...)
+	}
+	return seen, true
 }
